@@ -4,11 +4,20 @@
 
   Modelled Python (as it is after the `fix:` commits):
 
-  * `odf/opendocument.py: load(odffile)`
+  * `odf/opendocument.py: load(odffile)` (dispatch as rewritten in 0372084)
         manifestpart = z.read('META-INF/manifest.xml'); manifest = manifestlist(manifestpart)
         __loadxmlparts(z, manifest, doc, u'')
-        for mentry in manifest:  … elif mentry[:7]=="Object " and len(mentry)<11 and mentry[-1]=="/":
-                                        __loadxmlparts(z, manifest, subdoc, mentry)
+        subdocs = {u'': doc}
+        for mentry in manifest:
+            objectpath = u''
+            while True:                                             -- `chain`
+                m = re.match(u"Object [0-9]+/", mentry[len(objectpath):])      -- `objSeg`
+                if m is None or objectpath + m.group(0) not in manifest: break
+                if objectpath + m.group(0) not in subdocs:          -- first discovery: `eraseDups`
+                    …; __loadxmlparts(z, manifest, subdoc, objectpath + m.group(0)); …
+                objectpath += m.group(0)
+    i.e. a sub-document is every folder reached by a chain of `Object <digits>/` folders that are ALL listed in
+    the manifest, at any depth and with any number of digits, loaded once, in order of first discovery;
     and `__loadxmlparts(z, manifest, doc, objectpath)`
         for xmlfile in (objectpath+'settings.xml', objectpath+'meta.xml', objectpath+'content.xml', objectpath+'styles.xml'):
             if xmlfile not in manifest: continue
@@ -87,7 +96,7 @@ def EP.ofCode (n : Nat) : Option EP := EP.all.find? (fun e => e.code == n)
 
 /-- how the entry point walks the package (hand-written from the source, tied by correspondence) -/
 inductive Shape where
-  | loadLike      -- manifest, then the four parts of "" and of every `Object N/` listed in the manifest
+  | loadLike      -- manifest, then the four parts of "" and of every sub-document folder (`objFolders`)
   | manifestOnly
   | moin          -- styles.xml then content.xml of the main document, straight from the zip
 deriving DecidableEq, Repr
@@ -174,9 +183,27 @@ structure Pkg where
 
 def Pkg.lookup (p : Pkg) (path : Str) : Option XmlMember := (p.files.find? (fun f => f.1 == path)).map (·.2)
 
-/-- `mentry[:7] == "Object " and len(mentry) < 11 and mentry[-1] == "/"` -/
-def isObjDir (e : Str) : Bool :=
-  e.take 7 == [79, 98, 106, 101, 99, 116, 32] && e.length < 11 && e.getLast? == some 47
+def isDigit (c : Cp) : Bool := 48 ≤ c && c ≤ 57
+
+/-- `re.match(u"Object [0-9]+/", s)`: the matched prefix (`[0-9]` is ASCII only; the greedy digit run must be
+    followed by `/`, a shorter run would be followed by a digit) -/
+def objSeg (s : Str) : Option Str :=
+  if s.take 7 == [79, 98, 106, 101, 99, 116, 32] then
+    let ds := (s.drop 7).takeWhile isDigit
+    if !ds.isEmpty && (s.drop (7 + ds.length)).head? == some 47 then some (s.take (7 + ds.length + 1)) else none
+  else none
+
+/-- the `while True` loop for one manifest entry `e`: the listed `Object <n>/` folders along its path, outermost
+    first, starting from `op`; `fuel` bounds the number of rounds (every round consumes ≥ 9 characters) -/
+def chain (man : List Str) (e : Str) : Nat → Str → List Str
+  | 0, _ => []
+  | fuel + 1, op =>
+    match objSeg (e.drop op.length) with
+    | none => []
+    | some seg => if man.contains (op ++ seg) then (op ++ seg) :: chain man e fuel (op ++ seg) else []
+
+/-- the sub-document folders `load` discovers, in order of first discovery (the keys of `subdocs` but "") -/
+def objFolders (man : List Str) : List Str := (man.flatMap (fun e => chain man e (e.length + 1) [])).eraseDups
 
 /-- `__loadxmlparts`: the members of object `obj` it opens, in source order -/
 def loadParts (p : Pkg) (obj : Str) : List Member :=
@@ -189,7 +216,7 @@ def readOrder (ep : EP) (p : Pkg) : List Member :=
   match ep.shape with
   | .manifestOnly => [⟨[], .manifest⟩]
   | .moin => [⟨[], .styles⟩, ⟨[], .content⟩]
-  | .loadLike => ⟨[], .manifest⟩ :: (loadParts p [] ++ (p.manifest.filter isObjDir).flatMap (loadParts p))
+  | .loadLike => ⟨[], .manifest⟩ :: (loadParts p [] ++ (objFolders p.manifest).flatMap (loadParts p))
 
 /-! ### assumed parser behaviour -/
 
